@@ -22,11 +22,12 @@ import FsModel.WrapDriver2
 import FsModel.TextDriver
 import FsModel.HandlesDriver
 import FsModel.MultiFsDriver
+import FsModel.BaseWalkDriver
 
 open Fs
 
 def handlers : List (String → List String → Option String) :=
-  [ PathDriver.handle, RefDriver.handle, FileDriver.handle, CopyDriver.handle, ArchiveDriver.handle, RouteDriver.handle, FaultDriver.handle, GuardDriver.handle, ParseDriver.handle, WalkDriver.handle, ConfineDriver.handle, BulkDriver.handle, GlobDriver.handle, ConcDriver.handle, InfoDriver.handle, OsDriver.handle, WrapDriver2.handle, TextDriver.handle, HandlesDriver.handle, MultiFsDriver.handle ]
+  [ PathDriver.handle, RefDriver.handle, FileDriver.handle, CopyDriver.handle, ArchiveDriver.handle, RouteDriver.handle, FaultDriver.handle, GuardDriver.handle, ParseDriver.handle, WalkDriver.handle, ConfineDriver.handle, BulkDriver.handle, GlobDriver.handle, ConcDriver.handle, InfoDriver.handle, OsDriver.handle, WrapDriver2.handle, TextDriver.handle, HandlesDriver.handle, MultiFsDriver.handle, BaseWalkDriver.handle ]
 
 def dispatch (line : String) : String :=
   match (line.trimAscii.toString.splitOn " ").filter (· ≠ "") with
